@@ -52,14 +52,15 @@ Theorem C15_table_check_ordered : forall rows both bad, table_check rows both ba
   forall t ld (grw c s : R), In t both -> (1 <= ld <= 5)%Z -> 0 <= s < 1 ->
   is_bad bad (t, ld, corg_class c, gw_class grw) = false ->
   exists fk nfk pv, triple_of rows t ld = Some (fk, nfk, pv) /\
-    let p := route_table (hydro t fk nfk pv grw c) s in
+    let p := route_table (hydro t fk nfk pv grw c s) s in
     0 < l_wmin p /\ l_wmin p < l_w p /\ l_w p <= l_porges p /\ l_porges p < 1.
 Proof. exact table_check_ordered. Qed.
 
 Theorem C15_table_check_wred : forall rows both bad, table_check rows both bad = true ->
-  forall t ld (grw c : R), In t both -> (1 <= ld <= 5)%Z ->
+  forall t ld (grw c s : R), In t both -> (1 <= ld <= 5)%Z -> 0 <= s < 1 ->
   exists fk nfk pv, triple_of rows t ld = Some (fk, nfk, pv) /\
-    let h := hydro t fk nfk pv grw c in ho_lim h < ho_wred h < ho_feldw h.
+    let h := hydro t fk nfk pv grw c s in
+    let p := route_table h s in l_wmin p < ho_wred h < l_w p.
 Proof. exact table_check_wred. Qed.
 
 (* ---- the top-layer threshold: calcWRed is handed percent at all four call sites and returns a fraction strictly between ---- *)
@@ -84,13 +85,13 @@ Theorem C15_wred_between_restore : forall (sand : bool) (b : params (T:=R)) (grw
   nth 0 (P_wmin u) 0 < P_wred u /\ P_wred u < nth 0 (P_w b) 0.
 Proof. exact wred_restore_lemma. Qed.
 
-(* table route with stones in the first horizon: the parameters are scaled, WRED is not — ULS, density class 1, 30 % stones:
-   the layer is ordered but its field capacity lies below WRED (finding, replayed on the real code) *)
-Theorem C15_wred_table_stones_refuted :
-  let h := hydro (T:=R) ("U", "L", "S")%char 39 26 48 10 1 in
+(* table route WITH stones in the first horizon (any fraction 0 <= s < 1): C15_table_check_wred above.  The instance that
+   was the counterexample before the repair d7a6e7d (ULS, density class 1, 30 % stones: WRED 0.3016 > W[0] 0.273): *)
+Theorem C15_wred_table_stones_instance :
+  let h := hydro (T:=R) ("U", "L", "S")%char 39 26 48 10 1 (3 / 10) in
   let p := route_table h (3 / 10) in
-  (0 < l_wmin p /\ l_wmin p < l_w p /\ l_w p <= l_porges p /\ l_porges p < 1) /\ l_w p < ho_wred h.
-Proof. exact wred_table_stones_witness. Qed.
+  (0 < l_wmin p /\ l_wmin p < l_w p /\ l_w p <= l_porges p /\ l_porges p < 1) /\ l_wmin p < ho_wred h < l_w p.
+Proof. exact wred_table_stones_instance. Qed.
 
 (* ---- groundwater: below the table FC = PS (C06's lemma, for both update paths); the adjustment keeps the order ---- *)
 Theorem C15_fc_below_gw_restore : forall (sand : bool) (b : params (T:=R)) (grw : R),
@@ -152,7 +153,7 @@ Print Assumptions C15_wred_between.
 Print Assumptions C15_wred_between_explicit.
 Print Assumptions C15_wred_between_fraction.
 Print Assumptions C15_wred_between_restore.
-Print Assumptions C15_wred_table_stones_refuted.
+Print Assumptions C15_wred_table_stones_instance.
 Print Assumptions C15_fc_below_gw_restore.
 Print Assumptions C15_fc_below_gw_table.
 Print Assumptions C15_gw_update_keeps_order.
